@@ -698,3 +698,22 @@ def r12_tryinto_usize(text, log):
         edits.append((e.start, st[i + 7].end, "vx_usize_to_u32(%s)" % e.text))
     log["R12 generic-narrowing (TryInto<u32> at usize)"] = log.get("R12 generic-narrowing (TryInto<u32> at usize)", 0) + 1
     return apply_edits(text, edits)
+
+
+def replace_span(text, a, b, rep, log):
+    """R7 outline of a statement span: the tokens from the unique match of `a` through the first following match of `b` are
+    replaced by `rep` (the replaced text is verified separately as a lifted region, or assumed - the unit says which)"""
+    st = sig(lex(text))
+    pa = [t.text for t in sig(lex(a))]
+    pb = [t.text for t in sig(lex(b))]
+    ha = find_seq(st, pa)
+    if len(ha) != 1:
+        raise RewriteError("replace-span: start `%s` matches %d times" % (a, len(ha)))
+    hb = [h for h in find_seq(st, pb) if h >= ha[0] + len(pa)]
+    if not hb:
+        raise RewriteError("replace-span: end `%s` not found after start" % b)
+    s0 = st[ha[0]].start
+    e0 = st[hb[0] + len(pb) - 1].end
+    key = "R7 outline span `%s` .. `%s`" % (a, b)
+    log[key] = log.get(key, 0) + 1
+    return text[:s0] + rep + text[e0:]
